@@ -1,6 +1,7 @@
 import FpVerif.Gen.TCGen
 import FpVerif.Lemmas.TCGenCheck
 import FpVerif.Spec.C18
+import FpVerif.Lemmas.CloneTie
 /-!
 # C18 — the hand-written combinators of `clone/clone.go`, TRANSLATED from the source on every run, against the heap model
 
@@ -113,6 +114,259 @@ theorem tied_clone_deep_equal {c : CloneD T} {i : Inst} {enc : T → Val} (ht : 
 example : Tie (clone_Option (clone_HCons (clone_Given : CloneD Int) clone_HNil)) (.option (.pair .given .hnil))
     (encOption (encPair Val.int encUnit)) :=
   clone_Option_is_model (clone_HCons_is_model (clone_Given_is_model _) clone_HNil_is_model)
+
+
+-- =====================================================================================================================
+-- HEAP-RELATIVE TIE (audit finding 6)
+-- =====================================================================================================================
+/-!
+`Tie` above asks for an UNCHANGED heap and a heap-independent encoding; `not_tie_seq` / `not_tie_slice` below show that NO
+encoding whatsoever makes `clone.Seq` / `clone.Slice` tied in that sense, so the `…_is_model` theorems above reach one
+reference level only.  `Lemmas/CloneTie.lean` has the heap-relative notion
+
+    `HTie c i R`  :  `R h v x → ∃ ext, (clone i x h).2 = h ++ ext ∧ R (h ++ ext) (c v) (clone i x h).1`
+
+over a representation RELATION `R : Heap → T → Val → Prop` (`Rep.Mono`: stable under allocation; `Rep.Views R ty tr`:
+related values are well-formed and `view` as the tree `tr v`).  The `…_is_model_heap` theorems re-state every tie for it —
+WITHOUT the side condition on the heap cell that `clone_Seq_is_model` needed and WITH allocating arguments allowed — and
+`cinst_tie` composes them by induction over a typed instance expression `CInst T` to any nesting depth
+(`Option[Seq[Seq[T]]]`, `Seq[Tuple2[Slice[T], Option[T]]]`, …).  `Tie.toHTie`: the old notion is the special case
+`ext = []`, `R = repEnc enc`.
+-/
+
+/-- remark: NO encoding ties `clone.Seq` in the old sense (the result's backing array is always allocated) -/
+theorem not_tie_seq [GoZero T] (c : CloneD T) (i : Inst) (enc : List T → Val) : ¬ Tie (clone_Seq c) (.seq i) enc := by
+  intro ht
+  cases hx : enc [] with
+  | slice a len =>
+    have := ht [] (List.replicate (a + 1) (.arr []))
+    rw [hx] at this
+    have hc : (List.replicate (a + 1) (Cell.arr []))[a]? = some (.arr []) := by simp
+    simp [clone, cloneList] at this
+  | _ => have := ht [] []; rw [hx] at this; simp [clone] at this
+
+theorem not_tie_slice [GoZero T] (c : CloneD T) (i : Inst) (enc : List T → Val) : ¬ Tie (clone_Slice c) (.slice i) enc := by
+  intro ht
+  cases hx : enc [] with
+  | slice a len =>
+    have := ht [] (List.replicate (a + 1) (.arr []))
+    rw [hx] at this
+    have hc : (List.replicate (a + 1) (Cell.arr []))[a]? = some (.arr []) := by simp
+    simp [clone, cloneList] at this
+  | _ => have := ht [] []; rw [hx] at this; simp [clone] at this
+
+/-- the old notion is the special case `ext = []` at the heap-independent representation `repEnc enc` -/
+theorem Tie.toHTie {c : CloneD T} {i : Inst} {enc : T → Val} (ht : Tie c i enc) : HTie c i (repEnc enc) :=
+  htie_of_enc ht
+
+/-- the old encodings are the heap-independent instances of the representation combinators -/
+theorem repOption_enc (enc : T → Val) (h : Heap) (v : Option T) (x : Val) :
+    repOption (repEnc enc) h v x ↔ repEnc (encOption enc) h v x := by
+  cases v <;> simp [repOption, repEnc, encOption]
+
+theorem repPair_enc (e1 : H → Val) (e2 : T → Val) (h : Heap) (v : H × T) (x : Val) :
+    repPair (repEnc e1) (repEnc e2) h v x ↔ repEnc (encPair e1 e2) h v x := by
+  simp only [repPair, repEnc, encPair]
+  constructor
+  · rintro ⟨a, b, rfl, rfl, rfl⟩; rfl
+  · intro hx; exact ⟨_, _, hx, rfl, rfl⟩
+
+/-- `Tuple1` tail of a `TupleN`: `pair x hnil` -/
+def repT1 (R : Rep T) : Rep (T1 T) := fun h t x => ∃ a, x = .pair a .unit ∧ R h t.i1 a
+def trT1 (tr : T → Tree) : T1 T → Tree := fun t => .pair (tr t.i1) .unit
+
+theorem repT1_mono {R : Rep T} (hm : R.Mono) : (repT1 R).Mono := by
+  intro h v x ext hr
+  obtain ⟨a, hx, ha⟩ := hr
+  exact ⟨a, hx, hm _ _ _ ext ha⟩
+
+theorem repT1_views {R : Rep T} {ty : Ty} {tr : T → Tree} (hv : R.Views ty tr) :
+    (repT1 R).Views (.pair ty .unit) (trT1 tr) := by
+  intro h v x hr
+  obtain ⟨a, rfl, ha⟩ := hr
+  have := hv _ _ _ ha
+  simp [WT, view, trT1, this.1, this.2]
+
+theorem clone_Given_is_model_heap [GoZero T] (R : Rep T) : HTie (clone_Given : CloneD T) .given R := htie_given R
+
+theorem clone_HNil_is_model_heap : HTie clone_HNil .hnil repUnit := htie_hnil
+
+/-- `clone.Option` over ANY tied argument — allocating ones included (`Option[Seq[T]]`, `Option[Slice[Option[Seq[T]]]]`) -/
+theorem clone_Option_is_model_heap [GoZero T] {c : CloneD T} {i : Inst} {R : Rep T} (ht : HTie c i R) :
+    HTie (clone_Option c) (.option i) (repOption R) := htie_option ht
+
+/-- `clone.Seq` over any tied argument: the heap grows by the cells the element clones allocate and then by the result's
+    backing array; in the grown heap the result is a slice whose cells represent `s.map c` -/
+theorem clone_Seq_is_model_heap [GoZero T] {c : CloneD T} {i : Inst} {R : Rep T} (ht : HTie c i R) (hm : R.Mono) :
+    HTie (clone_Seq c) (.seq i) (repList R) := htie_seq ht hm
+
+theorem clone_Slice_is_model_heap [GoZero T] {c : CloneD T} {i : Inst} {R : Rep T} (ht : HTie c i R) (hm : R.Mono) :
+    HTie (clone_Slice c) (.slice i) (repList R) := htie_slice ht hm
+
+theorem clone_HCons_is_model_heap [GoZero H] [HListT T] [GoZero T] {ch : CloneD H} {ct : CloneD T} {ih it : Inst}
+    {Rh : Rep H} {Rt : Rep T} (hh : HTie ch ih Rh) (ht : HTie ct it Rt) (mh : Rh.Mono) (mt : Rt.Mono) :
+    HTie (clone_HCons ch ct) (.pair ih it) (repPair Rh Rt) := htie_pair hh ht mh mt
+
+theorem htie_t1 {c : T → T} {i : Inst} {R : Rep T} (ht : HTie c i R) :
+    HTie (fun t : T1 T => (⟨c t.i1⟩ : T1 T)) (.pair i .hnil) (repT1 R) := by
+  intro v x h hr
+  obtain ⟨a, rfl, ha⟩ := hr
+  obtain ⟨ext, he, hr'⟩ := ht v.i1 a h ha
+  exact ⟨ext, by simpa [clone] using he, ⟨(clone i a h).1, by simp [clone], hr'⟩⟩
+
+/-- `clone.Tuple2(i₁, i₂)` is `pair i₁ (pair i₂ hnil)`, over any tied arguments -/
+theorem clone_Tuple2_is_model_heap [GoZero A1] [GoZero A2] {c1 : CloneD A1} {c2 : CloneD A2} {i1 i2 : Inst}
+    {R1 : Rep A1} {R2 : Rep A2} (h1 : HTie c1 i1 R1) (h2 : HTie c2 i2 R2) (m1 : R1.Mono) (m2 : R2.Mono) :
+    HTie (clone_Tuple2 c1 c2) (.pair i1 (.pair i2 .hnil)) (repPair R1 (repT1 R2)) :=
+  htie_pair h1 (htie_t1 h2) m1 (repT1_mono m2)
+
+/-- what a heap-relative tie buys: in the grown heap the model's result VIEWS as the tree of what the translated function
+    returns, and (C18) as the original — so the translated function's result reads like its argument -/
+theorem htied_clone_deep_equal {c : CloneD T} {i : Inst} {R : Rep T} {tr : T → Tree} (ht : HTie c i R)
+    (hv : R.Views i.ty tr) (hd : i.asDemanded) {v : T} {x : Val} {h : Heap} (hr : R h v x) :
+    (∃ ext, (clone i x h).2 = h ++ ext) ∧
+      view i.ty (clone i x h).2 (clone i x h).1 = tr (c v) ∧ tr (c v) = tr v := by
+  obtain ⟨ext, he, _, hview⟩ := ht.view_eq hv hr
+  have hw := (hv _ _ _ hr).1
+  have hde := FpVerif.Spec.C18.clone_deep_equal (i := i) (hd := hd) (v := x) (h := h) (hw := hw)
+  exact ⟨⟨ext, he⟩, hview, by rw [← hview, hde, (hv _ _ _ hr).2]⟩
+
+-- induction over the instance expression -------------------------------------------------------------------------------
+
+/-- typed instance expressions over the translated combinators (the non-exception part of `clone/clone.go`) -/
+inductive CInst : Type → Type 1 where
+  | given : CInst Int
+  | hnil : CInst Unit
+  | option {T : Type} [GoZero T] (e : CInst T) : CInst (Option T)
+  | seq {T : Type} [GoZero T] (e : CInst T) : CInst (List T)
+  | slice {T : Type} [GoZero T] (e : CInst T) : CInst (List T)
+  | hcons {H T : Type} [GoZero H] [HListT T] [GoZero T] (eh : CInst H) (et : CInst T) : CInst (H × T)
+  | tuple2 {A1 A2 : Type} [GoZero A1] [GoZero A2] (e1 : CInst A1) (e2 : CInst A2) : CInst (A1 × T1 A2)
+
+/-- the TRANSLATED function the expression denotes -/
+def CInst.fn : {T : Type} → CInst T → CloneD T
+  | _, .given => (clone_Given : CloneD Int)
+  | _, .hnil => clone_HNil
+  | _, @CInst.option _ _ e => clone_Option e.fn
+  | _, @CInst.seq _ _ e => clone_Seq e.fn
+  | _, @CInst.slice _ _ e => clone_Slice e.fn
+  | _, @CInst.hcons _ _ _ _ _ eh et => clone_HCons eh.fn et.fn
+  | _, @CInst.tuple2 _ _ _ _ e1 e2 => clone_Tuple2 e1.fn e2.fn
+
+/-- the heap model's instance expression -/
+def CInst.inst : {T : Type} → CInst T → Inst
+  | _, .given => .given
+  | _, .hnil => .hnil
+  | _, @CInst.option _ _ e => .option e.inst
+  | _, @CInst.seq _ _ e => .seq e.inst
+  | _, @CInst.slice _ _ e => .slice e.inst
+  | _, @CInst.hcons _ _ _ _ _ eh et => .pair eh.inst et.inst
+  | _, @CInst.tuple2 _ _ _ _ e1 e2 => .pair e1.inst (.pair e2.inst .hnil)
+
+/-- how a typed value is laid out in the heap -/
+def CInst.rep : {T : Type} → CInst T → Rep T
+  | _, .given => repInt
+  | _, .hnil => repUnit
+  | _, @CInst.option _ _ e => repOption e.rep
+  | _, @CInst.seq _ _ e => repList e.rep
+  | _, @CInst.slice _ _ e => repList e.rep
+  | _, @CInst.hcons _ _ _ _ _ eh et => repPair eh.rep et.rep
+  | _, @CInst.tuple2 _ _ _ _ e1 e2 => repPair e1.rep (repT1 e2.rep)
+
+/-- what a typed value reads like -/
+def CInst.tr : {T : Type} → CInst T → T → Tree
+  | _, .given => Tree.int
+  | _, .hnil => fun _ => Tree.unit
+  | _, @CInst.option _ _ e => trOption e.tr
+  | _, @CInst.seq _ _ e => trList e.tr
+  | _, @CInst.slice _ _ e => trList e.tr
+  | _, @CInst.hcons _ _ _ _ _ eh et => trPair eh.tr et.tr
+  | _, @CInst.tuple2 _ _ _ _ e1 e2 => trPair e1.tr (trT1 e2.tr)
+
+theorem cinst_mono : ∀ {T : Type} (e : CInst T), e.rep.Mono
+  | _, .given => repInt_mono
+  | _, .hnil => repUnit_mono
+  | _, @CInst.option _ _ e => repOption_mono (cinst_mono e)
+  | _, @CInst.seq _ _ e => repList_mono (cinst_mono e)
+  | _, @CInst.slice _ _ e => repList_mono (cinst_mono e)
+  | _, @CInst.hcons _ _ _ _ _ eh et => repPair_mono (cinst_mono eh) (cinst_mono et)
+  | _, @CInst.tuple2 _ _ _ _ e1 e2 => repPair_mono (cinst_mono e1) (repT1_mono (cinst_mono e2))
+
+theorem cinst_views : ∀ {T : Type} (e : CInst T), e.rep.Views e.inst.ty e.tr
+  | _, .given => repInt_views
+  | _, .hnil => repUnit_views
+  | _, @CInst.option _ _ e => repOption_views (cinst_views e)
+  | _, @CInst.seq _ _ e => repList_views (cinst_views e)
+  | _, @CInst.slice _ _ e => repList_views (cinst_views e)
+  | _, @CInst.hcons _ _ _ _ _ eh et => repPair_views (cinst_views eh) (cinst_views et)
+  | _, @CInst.tuple2 _ _ _ _ e1 e2 => repPair_views (cinst_views e1) (repT1_views (cinst_views e2))
+
+theorem cinst_demanded : ∀ {T : Type} (e : CInst T), e.inst.asDemanded
+  | _, .given => trivial
+  | _, .hnil => trivial
+  | _, @CInst.option _ _ e => cinst_demanded e
+  | _, @CInst.seq _ _ e => cinst_demanded e
+  | _, @CInst.slice _ _ e => cinst_demanded e
+  | _, @CInst.hcons _ _ _ _ _ eh et => ⟨cinst_demanded eh, cinst_demanded et⟩
+  | _, @CInst.tuple2 _ _ _ _ e1 e2 => ⟨cinst_demanded e1, cinst_demanded e2, trivial⟩
+
+/-- TIE A FOR `clone`, AT ANY NESTING DEPTH: the function translated from `clone/clone.go` that the expression denotes and
+    the heap model's `clone` at the corresponding `Inst` are heap-relatively tied -/
+theorem cinst_tie : ∀ {T : Type} (e : CInst T), HTie e.fn e.inst e.rep
+  | _, .given => clone_Given_is_model_heap _
+  | _, .hnil => clone_HNil_is_model_heap
+  | _, @CInst.option _ _ e => clone_Option_is_model_heap (cinst_tie e)
+  | _, @CInst.seq _ _ e => clone_Seq_is_model_heap (cinst_tie e) (cinst_mono e)
+  | _, @CInst.slice _ _ e => clone_Slice_is_model_heap (cinst_tie e) (cinst_mono e)
+  | _, @CInst.hcons _ _ _ _ _ eh et => clone_HCons_is_model_heap (cinst_tie eh) (cinst_tie et) (cinst_mono eh) (cinst_mono et)
+  | _, @CInst.tuple2 _ _ _ _ e1 e2 => clone_Tuple2_is_model_heap (cinst_tie e1) (cinst_tie e2) (cinst_mono e1) (cinst_mono e2)
+
+/-- spelled out with `view`: for every instance expression `e`, every heap `h` and every model value `x` that represents
+    the typed value `v` in `h`: the heap only grows, the model's result is well-formed in the new heap and reads there as
+    the tree of `e.fn v` (the translation's result), which is the tree of `v` -/
+theorem cinst_clone_view {T : Type} (e : CInst T) {h : Heap} {v : T} {x : Val} (hr : e.rep h v x) :
+    ∃ ext, (clone e.inst x h).2 = h ++ ext ∧ e.rep (h ++ ext) (e.fn v) (clone e.inst x h).1 ∧
+      WT e.inst.ty (h ++ ext) (clone e.inst x h).1 ∧
+      view e.inst.ty (h ++ ext) (clone e.inst x h).1 = e.tr (e.fn v) ∧ e.tr (e.fn v) = e.tr v := by
+  obtain ⟨ext, he, hr'⟩ := cinst_tie e v x h hr
+  have h1 := cinst_views e _ _ _ hr'
+  have h2 := htied_clone_deep_equal (cinst_tie e) (cinst_views e) (cinst_demanded e) hr
+  exact ⟨ext, he, hr', h1.1, h1.2, h2.2.2⟩
+
+/-- the translated clone functions compose to the IDENTITY on typed values, at any nesting depth (a translated combinator that
+    dropped, duplicated or reordered a component would fail here) -/
+theorem cinst_fn_id : ∀ {T : Type} (e : CInst T) (v : T), e.fn v = v
+  | _, .given, _ => rfl
+  | _, .hnil, _ => rfl
+  | _, @CInst.option _ _ e, v => by
+    have : e.fn = id := funext (cinst_fn_id e)
+    show Option.map e.fn v = v
+    rw [this]; simp
+  | _, @CInst.seq _ _ e, v => by
+    have : e.fn = id := funext (cinst_fn_id e)
+    show List.map e.fn v = v
+    rw [this]; simp
+  | _, @CInst.slice _ _ e, v => by
+    have : e.fn = id := funext (cinst_fn_id e)
+    show List.map e.fn v = v
+    rw [this]; simp
+  | _, @CInst.hcons _ _ _ _ _ eh et, v => by
+    show (eh.fn v.1, et.fn v.2) = v
+    rw [cinst_fn_id eh, cinst_fn_id et]
+  | _, @CInst.tuple2 _ _ _ _ e1 e2, v => by
+    show (e1.fn v.1, (⟨e2.fn v.2.i1⟩ : T1 _)) = v
+    rw [cinst_fn_id e1, cinst_fn_id e2]
+
+/-- non-vacuous below TWO reference levels: `clone.Option(clone.Seq(clone.Seq(clone.Given)))` on
+    `Some([[1, 2], nil])` laid out over two backing arrays -/
+example : (CInst.option (.seq (.seq .given))).rep
+    [.arr [.int 1, .int 2], .arr [.slice 0 2, .nilslice]] (some [[1, 2], []]) (.some (.slice 1 2)) :=
+  ⟨_, rfl, .inr ⟨1, 2, _, rfl, rfl, by decide,
+    .cons (.inr ⟨0, 2, _, rfl, rfl, by decide, .cons rfl (.cons rfl .nil)⟩) (.cons (.inl ⟨rfl, rfl⟩) .nil)⟩⟩
+
+example : HTie (clone_Option (clone_Seq (clone_Seq (clone_Given : CloneD Int)))) (.option (.seq (.seq .given)))
+    (repOption (repList (repList repInt))) :=
+  cinst_tie (.option (.seq (.seq .given)))
 
 end FpVerif.Spec.C18Gen
 
